@@ -9,7 +9,7 @@
 using namespace QHttpEngine;
 
 namespace {
-struct Flags { bool openSrc, openDst, seek, read, write; };
+struct Flags { bool openSrc, openDst, seek, read, write; qint64 cap = 0; };      // cap: the source hands out at most cap bytes per read call
 
 class RecDst : public QIODevice
 {
@@ -36,7 +36,12 @@ public:
     bool open(OpenMode mode) override { if (mF.openSrc) return false; return QBuffer::open(mode); }
     bool seek(qint64 pos) override { if (mF.seek) return false; return QBuffer::seek(pos); }
 protected:
-    qint64 readData(char *data, qint64 len) override { if (mF.read) return -1; return QBuffer::readData(data, len); }
+    qint64 readData(char *data, qint64 len) override
+    {
+        if (mF.read) return -1;
+        if (mF.cap > 0) len = qMin(len, mF.cap);      // a record-by-record device: short reads that are not the end
+        return QBuffer::readData(data, len);
+    }
 private:
     Flags mF;
 };
@@ -71,6 +76,7 @@ static Val run_copier(const Val &c)
     bool seq = c.at(1).asInt() != 0;
     Flags f{c.at(5).at(0).asInt() != 0, c.at(5).at(1).asInt() != 0, c.at(5).at(2).asInt() != 0,
             c.at(5).at(3).asInt() != 0, c.at(5).at(4).asInt() != 0};
+    if (c.at(5).size() > 5) f.cap = c.at(5).at(5).asInt();
     RecDst dst(&log, f);
     RandSrc rnd(&content, f);
     SeqSrc sq(f);
